@@ -398,7 +398,9 @@ def exec_C(case, tape=None):
     got = None
     try:
         got = sim.run(lambda: fn(cube, case["p"], -3000, par_runner))
-    except (StepLimit, HarnessInconclusive) as e:
+    except StepLimit:
+        rr.outcome = "step-cap"
+    except HarnessInconclusive as e:
         rr.harness = _exc_str(e)
     except Deadlock as e:
         rr.harness = "deadlock in prange model: " + str(e)
@@ -411,6 +413,8 @@ def exec_C(case, tape=None):
     rr.digest = sim.digest()
     if rr.harness:
         rr.outcome = "harness"
+        return rr
+    if rr.outcome == "step-cap":
         return rr
     if got is not None and _sha(*got) != ref_sha:
         nbad = int(np.sum(got[0] != ref[0])) + int(np.sum(got[1] != ref[1]))
